@@ -45,7 +45,7 @@ pub fn poll(&mut self, cx: &mut Context, env: &mut FEnv) -> (r: Poll<()>)
         forall|g: int| old(env).registered@.contains_key(g) ==> final(env).registered@.contains_key(g),
         final(env).set == old(env).set, final(env).woken == old(env).woken,
 //@ closure 0
-|waker: &Waker| -> (vx_b: bool) ensures vx_b ==> waker.task == cx.task
+|waker: &Waker| -> (vx_b: bool) ensures vx_b ==> waker.task == cx.task /* OBL:C07.flag.pending_poll_is_registered */
 //@ closure_ghost 0
 Ghost(|vx_t: int| vx_t == cx.task)
 //@ item Ticket::poll
